@@ -68,7 +68,7 @@ def obligations(tier):
            harness='C16_rle', func='rle_largest_le', timeout=150 if q else 900),
         Ob('rle_largest_le_large_integers', 'ch', 'ascending sequences of length 1..4, first 10**15 / 2**60, gaps 1..3 x (3*10**15+7) / (2**55+1); query = each stored value and its two neighbours',
            ['common.Rle.RLE.largest_le', 'RLEItem.largest_le'], harness='C16_rle', func='rle_largest_le_large', timeout=150 if q else 900),
-        Ob('lis_type01_frame_index_while_building', 'ch', '1..4 records, position gaps 1..2, 1..2 frames per record; total frames and the record / offset of EVERY frame queried after each record is added',
+        Ob('lis_type01_frame_index_while_building', 'ch', '1..4 records, position gaps 1..2, 1..2 frames per record; total frames and the record / offset of EVERY frame queried after each record is added; positions raw or through a conversion function (t - 0x50, 3t + 1)',
            ['LIS.core.Rle.RLEType01.add/tellLrForFrame/totalFrames/xAxisFirst', 'RLEItemType01.add/tellLrForFrame/totalFrames'],
            harness='C16_rle', func='type01_frames_incremental', timeout=150 if q else 900),
         Ob('lis_type01_frame_index', 'ch', '1..4 records, position gaps 1..3, 1..3 frames per record, frame number 0..12',
